@@ -69,15 +69,16 @@ def Acc.failCode : Acc → Nat
 inductive AccOut
   | ok (dataNull : Bool)      -- returned bloc_true; the out pointer is NULL iff `dataNull`
   | fail (code : Nat)         -- returned bloc_false, error record set
-  | hazard                    -- dereferences a null pointer
   deriving DecidableEq, Repr, Inhabited
 
-/-- What the accessor does. `bloc_literal` / `bloc_tabchar` call `str->data()` / `tc->data()`,
-`tc->size()` on the pointer returned by `Value::literal()` / `tabchar()`, which is `nullptr` for a
-null value (bloc_capi.cpp:397-399, 413-415). -/
+/-- What the accessor does: the `Value` member throws its `NOT_…` error when the type does not
+match; otherwise it hands back the payload pointer, which is `nullptr` for a null value. All eight
+entry points pass that on: six store the pointer itself in the out parameter, `bloc_literal` /
+`bloc_tabchar` test it before calling `str->data()` / `tc->data()`, `tc->size()` and write
+`*buf = NULL` (and `*len = 0`) for a null value (bloc_capi.cpp: `str ? str->data() : nullptr`,
+`tc ? tc->data() : nullptr`, `tc ? tc->size() : 0`). -/
 def accessor (k : Acc) (v : Val) : AccOut :=
   if !k.matches v.type then .fail k.failCode
-  else if (k == .l || k == .x) && v.isNull then .hazard
   else .ok v.isNull
 
 /-! ## state -/
@@ -261,7 +262,7 @@ inductive Op
   | vfree (v : Nat)
   | alit (v : Nat) (s : Option Bytes) | araw (v : Nat) (s : Option Bytes) | anull (v : Nat)
   | vdump (v : Nat)
-  | acc (v : Nat) (k : Acc) (guard : Bool)
+  | acc (v : Nat) (k : Acc)
   | tabitem (v idx w : Nat) | tupitem (v idx w : Nat)
   | eparse (c e : Nat) (t : ExprText) | efree (e : Nat) | etype (c e : Nat) | eval (c e v : Nat)
   | xparse (c x : Nat) (t : ProgText) (pos : Bool) | xfree (x : Nat)
@@ -280,7 +281,6 @@ inductive Res1
   | val (v : Val)                     -- a non-NULL `bloc_value*` denoting v
   | assigned (b : Bool) (v : Val)     -- result of an assign call and what the value holds afterwards
   | acc (dataNull : Bool) (v : Val)   -- accessor succeeded; data pointer NULL? ; the data
-  | guard                             -- the probe skipped the call (null literal / bytes value)
   | dataNull                          -- table / tuple accessor succeeded with NULL data
   | item (n : Nat) (v : Option Val)   -- size n; the item (none: index out of range, `bloc_false`)
   | ty (t : Ty)
@@ -660,14 +660,12 @@ def opVdump (s : State) (v : Nat) : State × Out :=
   | some x => (s, .of (.val x))
   | none => (s, .pre)
 
-def opAcc (s : State) (v : Nat) (k : Acc) (guard : Bool) : State × Out :=
+def opAcc (s : State) (v : Nat) (k : Acc) : State × Out :=
   match readSlot s v with
   | some x =>
-    if guard && (k == .l || k == .x) && k.matches x.type && x.isNull then (s, .of .guard) else
     match accessor k x with
     | .ok dn => (s, .of (.acc dn x))
     | .fail code => (setErr s code, { res := .truth false, fail := some code })
-    | .hazard => (s, .of (.hazard .nullDeref))
   | none => (s, .pre)
 
 def childRef (s : State) (v idx : Nat) : Option VRef :=
@@ -847,7 +845,7 @@ def step (s : State) : Op → State × Out
   | .araw v d => opAssign s v fun t => let (ok, nv) := assignTo .raw (fun b => .raw b) t d; (some ok, nv)
   | .anull v => opAssign s v assignNull
   | .vdump v => opVdump s v
-  | .acc v k g => opAcc s v k g
+  | .acc v k => opAcc s v k
   | .tabitem v idx w => opItem s .t v idx w
   | .tupitem v idx w => opItem s .u v idx w
   | .eparse c e t => opEparse s c e t
